@@ -106,7 +106,42 @@ pub fn bucket(n: usize) -> &'static str {
 
 // ---------------------------------------------------------------------------------- C02
 
-pub fn gen_c02(r: &mut Rng, id: usize, _thorough: bool) -> Group {
+/// thorough only: EVERY code point of the Basic Multilingual Plane (surrogates apart), 256 per case, and every 64th code
+/// point of the other planes, each as a one-character string, with and without --utf8-strings (astral ones only with it:
+/// finding F3)
+pub fn c02_exhaustive_size() -> usize {
+    2 * 256 + 64
+}
+
+fn gen_c02_exhaustive(id: usize) -> Group {
+    let (cps, utf8): (Vec<u32>, bool) = if id < 512 {
+        let block = (id / 2) as u32;
+        ((block * 256..(block + 1) * 256).filter(|c| !(0xD800..0xE000).contains(c)).collect(), id % 2 == 1)
+    } else {
+        let k = (id - 512) as u32;
+        ((0..256u32).map(|j| 0x10000 + (k * 256 + j) * 64).filter(|c| *c <= 0x10FFFF).collect(), true)
+    };
+    let mut text = String::from("[");
+    text.push_str(&cps.iter().map(|c| {
+        if *c < 0x10000 { format!("\"\\u{:04x}\"", c) } else { format!("\"{}\"", char::from_u32(*c).unwrap()) }
+    }).collect::<Vec<_>>().join(","));
+    text.push_str("]\n");
+    let vals: Vec<V> = if cps.is_empty() { vec![V::Arr(vec![])] } else { vec![crate::value::strict_parse(text.trim_end().as_bytes()).expect("generated row")] };
+    let mut c = base_case(format!("C02-x{id}"));
+    c.sources.push(stdin_src(text.into_bytes()));
+    c.spec.utf8 = utf8;
+    c.spec.jstyle = Some(["one-line", "consise", "pretty"][id % 3].into());
+    let mut g = Group::new(vec![c]);
+    g.values = vals;
+    g.nontrivial = true;
+    g.labels.push("kind:exhaustive-code-points".into());
+    g
+}
+
+pub fn gen_c02(r: &mut Rng, id: usize, thorough: bool) -> Group {
+    if thorough && id < c02_exhaustive_size() {
+        return gen_c02_exhaustive(id);
+    }
     if r.below(10) == 0 {
         // rows that are COMPUTED, at the edge of the double range: whatever is printed must still be JSON
         // (an overflowing product times zero, zero by zero, remainders by zero, sums that leave the range)
